@@ -516,8 +516,8 @@ func c14DrawCase(rt *rapid.T) *c14Case {
 				// a base name next to which no temporary file can be
 				// created: writing this file back fails, in a run of its
 				// own just as among the others
-				if base := name[strings.LastIndex(name, "/")+1:]; len(base) < 236 {
-					name += strings.Repeat("n", 236-len(base))
+				if base := name[strings.LastIndex(name, "/")+1:]; len(base) < 246 {
+					name += strings.Repeat("n", 246-len(base))
 				}
 			}
 			cs.Files[i].Name = name + ".go"
@@ -757,7 +757,7 @@ func c14CLIRun(base string, cs *c14Case, tree []c14File, args []string) *c14Run 
 	o.Args = argv
 	r := run.CLI(root, nil, argv...)
 	o.Exit = r.Exit
-	o.Stdout = strings.ReplaceAll(string(r.Stdout), base, "$D")
+	o.Stdout = c14TempSuffix.ReplaceAllString(strings.ReplaceAll(string(r.Stdout), base, "$D"), ".gopatch-N")
 	o.Stderr = c14TempSuffix.ReplaceAllString(strings.ReplaceAll(string(r.Stderr), base, "$D"), ".gopatch-N")
 	switch {
 	case r.StartErr != "":
@@ -798,7 +798,7 @@ func c14CLIRun(base string, cs *c14Case, tree []c14File, args []string) *c14Run 
 	return o
 }
 
-var c14ErrPrefixes = []string{"could not parse \"", "failed to rewrite \"", "reformat \"", "could not update \"", "the following errors occurred:"}
+var c14ErrPrefixes = []string{"could not parse \"", "failed to rewrite \"", "reformat \"", "could not update \"", "the following errors occurred:", "write $D/"}
 
 // c14SplitStderr separates the description lines ("file:text", printed while
 // files are processed) from the error text printed at the end.
@@ -831,6 +831,8 @@ func c14ErrKind(e string) string {
 		return "rewrite-error"
 	case strings.HasPrefix(e, "reformat"):
 		return "reformat-error"
+	case strings.HasPrefix(e, "write "):
+		return "write-error"
 	}
 	return "other-error"
 }
@@ -1013,6 +1015,9 @@ func evalC14CLI(cs *c14Case, info *c14Info) (sig, msg string) {
 			fa, fb := cs.file(a), cs.file(b)
 			if fa.Src != fb.Src {
 				continue
+			}
+			if outcome[a] == "write-error" || outcome[b] == "write-error" {
+				continue // whether a file can be written back depends on its name, not on its bytes
 			}
 			info.class("cli:twin-pair")
 			if solo[a].Files[a] != solo[b].Files[b] || solo[a].Exit != solo[b].Exit {
